@@ -1,4 +1,5 @@
 import AcVerif.Engine.Find
+import AcVerif.Engine.Overlap
 /-!
 # Prefilter work (C19)
 
@@ -72,5 +73,69 @@ def findScan (A : Aut σ α) (pre : Option (Prefilter α)) (i : Input α) : Nat 
   else
     let earliest := A.kind == .std || i.earliest
     if i.anch then 0 else scanImp A i pre false earliest
+
+end AcVerif
+
+/-! ## the stepwise overlapping search -/
+namespace AcVerif
+variable {σ α : Type}
+
+/-- `ovlLoop`, accumulating the extents of the in-loop prefilter calls of one call -/
+def ovlScanLoop (A : Aut σ α) (hay : List α) (s e : Nat) (he : e ≤ hay.length)
+    (pre : Option (Prefilter α)) (anch : Bool) (sid : σ) (at_ : Nat) (acc : Nat) : Nat :=
+  if h : at_ < e then
+    let sid := A.next anch sid (hay[at_]'(Nat.lt_of_lt_of_le h he))
+    if A.isSpecial sid then
+      if A.isDead sid then acc
+      else if A.isMatch sid then
+        let m := getMatch A sid 0 (at_ + 1)
+        if !(anch && decide (m.start > s)) then acc
+        else ovlScanLoop A hay s e he pre anch sid (at_ + 1) acc
+      else
+        match pre with
+        | some p =>
+          let c := p hay at_ e
+          let acc := acc + c.extent at_ e
+          match c.intoOption with
+          | Option.none => acc
+          | some i =>
+            if i > at_ then ovlScanLoop A hay s e he pre anch sid i acc
+            else ovlScanLoop A hay s e he pre anch sid (at_ + 1) acc
+        | Option.none => ovlScanLoop A hay s e he pre anch sid (at_ + 1) acc
+    else ovlScanLoop A hay s e he pre anch sid (at_ + 1) acc
+  else acc
+termination_by e - at_
+decreasing_by all_goals omega
+
+/-- one call of `try_find_overlapping_fwd`: the prefilter extent of this call (the state transformer is
+`tryFindOverlappingFwd`) -/
+def tryOvlScan (A : Aut σ α) (pre : Option (Prefilter α)) (i : Input α) (st : OState σ) : Nat :=
+  if A.kind != .std then 0
+  else if i.isDone then 0
+  else
+    let pre := if i.anch then Option.none else pre
+    match st.id with
+    | Option.none =>
+      match A.start i.anch with
+      | Option.none => 0
+      | some sid =>
+        let idx := st.nextIdx.getD 0
+        if A.isMatch sid && decide (idx < (A.mpats sid).length) then 0
+        else ovlScanLoop A i.hay i.s i.e i.valid.1 pre i.anch sid i.s 0
+    | some sid =>
+      match st.nextIdx with
+      | some idx =>
+        let m := getMatch A sid idx (st.at_ + 1)
+        if decide (idx < (A.mpats sid).length) && !(i.anch && decide (m.start > i.s)) then 0
+        else ovlScanLoop A i.hay i.s i.e i.valid.1 pre i.anch sid (st.at_ + 1) 0
+      | Option.none => ovlScanLoop A i.hay i.s i.e i.valid.1 pre i.anch sid st.at_ 0
+
+/-- the prefilter extents of `n` successive calls, stopping at the first error -/
+def ovlCallsScan (A : Aut σ α) (pre : Option (Prefilter α)) (i : Input α) : Nat → OState σ → List Nat
+  | 0, _ => []
+  | n + 1, st =>
+    match tryFindOverlappingFwd A pre i st with
+    | .error _ => []
+    | .ok st' => tryOvlScan A pre i { st with mat := Option.none } :: ovlCallsScan A pre i n st'
 
 end AcVerif
